@@ -34,6 +34,7 @@ var execPrefixes = []string{
 	"github.com/CrowdStrike/csproto",
 	"github.com/PowerDNS/lmdb-go/lmdbscan",
 	"github.com/samber/lo",
+	"github.com/PowerDNS/simpleblob",
 	"encoding/binary",
 	"bytes",
 	"strings",
